@@ -1,6 +1,7 @@
 import re
 import string
 from abc import ABC, abstractmethod
+from keyword import iskeyword
 
 
 class NameSanitizer(ABC):
@@ -15,7 +16,8 @@ class BuiltinNameSanitizer(NameSanitizer):
 
     def sanitize(self, name: str) -> str:
         if name == "":
-            return ""
+            return "_"
 
         first_letter = name[0] if name[0] in string.ascii_letters else "_"
-        return first_letter + self._BAD_CHARS.sub("", name[1:].translate(self._TRANSLATE_MAP))
+        result = first_letter + self._BAD_CHARS.sub("", name[1:].translate(self._TRANSLATE_MAP))
+        return result + "_" if iskeyword(result) else result
